@@ -53,7 +53,7 @@ def judgeSubs (cfg : Cfg) (p : Nat) : List IEv → Option String
 
 def judgeInv (sc : Scenario) (s : IStep) : Option String :=
   if s.panic then some "panic" else
-  let rq := sc.reqs.getD s.k ⟨false, false, []⟩
+  let rq := sc.reqs.getD s.k ⟨false, false, [], [], none⟩
   let m := sc.methods.getD s.k ' '
   let bd := sc.bodies.getD s.k ' '
   match judgeResend sc.cfg.rl m bd rq.script s.evs 0 with
@@ -84,7 +84,7 @@ def tagsOf (sc : Scenario) (steps : List IStep) (nd : Bool) : List String :=
   let invs := steps.filter (·.isInv)
   let p := primary sc.cfg
   let per := invs.map fun s =>
-    let rq := sc.reqs.getD s.k ⟨false, false, []⟩
+    let rq := sc.reqs.getD s.k ⟨false, false, [], [], none⟩
     let nrt : Nat := (s.evs.filter fun e => !e.fin).length
     let retried := s.evs.length ≥ 2
     let first := rtTag (rq.script.getD 0 Attempt.dflt).rt
